@@ -1,6 +1,8 @@
 package base
 
 import (
+	"encoding/binary"
+
 	"github.com/relex/gotils/promexporter/promext"
 	"github.com/relex/gotils/promexporter/promreg"
 	"github.com/relex/slog-agent/util"
@@ -112,6 +114,8 @@ func (pcounter *LogProcessCounterSet) SelectMetricKeySet(record *LogRecord) *Log
 
 	tempMergedKey := pcounter.mergeKeyBuffer
 	for _, tkey := range tempKeys {
+		// length-prefixed so that different key sets can never share counters, e.g. ("ab","c") and ("a","bc")
+		tempMergedKey = binary.AppendUvarint(tempMergedKey, uint64(len(tkey)))
 		tempMergedKey = append(tempMergedKey, tkey...)
 	}
 	pcounter.mergeKeyBuffer = tempMergedKey[:0]
